@@ -21,7 +21,7 @@ from .. import algs, fpx
 from ..runner import Infra
 from ..translate import ir
 
-THEOREMS = ["generated_wf", "generated_shape", "square_evalQ", "square_accuracy", "absolute_constants", "sqrt2_bounds", "ties_absolute", "absolute_accuracy", "absolute_kinds", "absolute_bit_level_c64", "absolute_bit_level_c128"]
+THEOREMS = ["generated_wf", "generated_shape", "square_evalQ", "square_accuracy", "absolute_constants", "sqrt2_bounds", "ties_absolute", "absolute_accuracy", "absolute_kinds", "absolute_bit_level_c64", "absolute_bit_level_c128", "Lmax_ge4", "absolute_total_c64", "absolute_total_c128"]
 SEARCHED = ["16-ULP bound for all non-NaN inputs", "no spurious NaN / infinity / wrong sign", "99.9 % within 3 ULP (4 for sqrt, log1p) on both log-uniform streams"]
 TRUSTED = [
     "Lean 4 kernel; axioms propext, Classical.choice, Quot.sound only",
@@ -38,7 +38,8 @@ LEVEL_TEXT = ("Partial proof. Theorems: every regenerated program (14 algorithms
               "specification hypot program; absolute_accuracy) satisfies (1-u)^7 |z|^2 <= H^2 <= (1+u)^7 |z|^2 — relative error < 3.51 u, within 4 ULP — for ALL rational parts with max(|x|,|y|) >= twice the smallest normal, "
               "absent overflow, any round-to-nearest and any square root with relative error <= u, all three branches of the algorithm, gradual underflow of the ratio included; and ON BIT PATTERNS "
               "(absolute_bit_level_c64/c128, Props/C01AbsBits.lean): for all finite part patterns with max >= twice the smallest normal, whenever no float node of the expanded program is non-finite, the bit-exact softfloat run "
-              "(whose sqrt is proved correctly rounded) returns a finite pattern whose value satisfies the same bounds. The accuracy clauses of the other 12 algorithms (16 ULP, "
+              "(whose sqrt is proved correctly rounded) returns a finite pattern whose value satisfies the same bounds; and with NO assumption about the run (absolute_total_c64/c128, Props/C01AbsTotal.lean): on the box "
+              "2^(emin+p) <= max(|x|,|y|) <= Lmax/2 the run exists, no node overflows (forward refinement theorem + no-overflow lemmas) and the result is within 3.51 u of |z|. The accuracy clauses of the other 12 algorithms (16 ULP, "
               "no spurious NaN/inf/sign, 99.9 % design-target rates) are decided by search only: boundary-targeted, log-uniform and special-lattice inputs "
               "against an independent Ziv-style mpmath reference, on the repo's own generated NumPy implementation of the expanded graph.")
 LEVEL_NOTE = "ULP bounds and rates: search only, except complex square and complex absolute (theorems over Q, normal range, absent overflow). Model tie: 3-way bit-level correspondence incl. Lean softfloat evaluation with recorded libm values."
@@ -307,7 +308,7 @@ def run(ctx):
     ctx.rule = ("per (function, dtype): log-uniform bit patterns, magnitudes 2^-12..2^12, +-4 ULP around every threshold constant of the regenerated program, "
                 "special lattice (zeros, subnormal, min normal, 1, max, inf); non-trivial = finite input with a determined mpmath reference; distinct by input bits")
     progs, errors = generate(ctx)
-    broken = ctx.lean_stage(["FAVerif.Props.C01", "FAVerif.Props.C01Abs", "FAVerif.Props.C01AbsBits"], THEOREMS)
+    broken = ctx.lean_stage(["FAVerif.Props.C01", "FAVerif.Props.C01Abs", "FAVerif.Props.C01AbsBits", "FAVerif.Props.C01AbsTotal"], THEOREMS)
     for k, e in errors.items():
         broken.append(ctx.broken(f"translate:{k}", e))
     n = ctx.scale(700, 60000)
